@@ -234,6 +234,55 @@ Section Frame.
     destruct (run fields prog t) as [xs s2]. destruct (run fields prog t') as [xs' s2'].
     cbn [fst snd] in *. split; [now rewrite A, C|]. intros k Hk. apply D, K_model, Hk.
   Qed.
+  (** with null_point.eval() allowed: its own output may depend on history (F-C12a), nothing else does --
+      the cached value never flows into the class-level state, hence not into any index or registry *)
+  Definition mask (x : out) : out := match x with ODim _ => ODim 0 | y => y end.
+
+  Lemma step_agree_masked : forall o s s',
+      agree K (glob s) (glob s') ->
+      mask (fst (step fields o s)) = mask (fst (step fields o s')) /\
+      agree K (glob (snd (step fields o s))) (glob (snd (step fields o s'))).
+  Proof.
+    intros o s s' H. destruct o;
+      try (assert (Hn : forall A B : Prop, (A -> B) -> (A -> B)) by auto;
+           match goal with
+           | |- context [step fields ?op _] =>
+               destruct (step_agree op s s' H) as [A B]; [intro E; discriminate E|]; rewrite A; split; [reflexivity|exact B]
+           end).
+    cbn [step fst snd glob mask]. split; [reflexivity|exact H].
+  Qed.
+
+  Lemma run_agree_masked : forall prog s s',
+      agree K (glob s) (glob s') ->
+      map mask (fst (run fields prog s)) = map mask (fst (run fields prog s')) /\
+      agree K (glob (snd (run fields prog s))) (glob (snd (run fields prog s'))).
+  Proof.
+    induction prog as [|o rest IH]; intros s s' H.
+    - cbn. split; [reflexivity|exact H].
+    - destruct (step_agree_masked o s s' H) as [A B].
+      cbn [run]. destruct (step fields o s) as [x s1]. destruct (step fields o s') as [x' s1'].
+      cbn [fst snd] in A, B. specialize (IH s1 s1' B).
+      destruct (run fields rest s1) as [xs s2]. destruct (run fields rest s1') as [xs' s2'].
+      cbn [fst snd map] in *. destruct IH as [IH1 IH2]. split; [now rewrite A, IH1|exact IH2].
+  Qed.
+
+  Lemma noninterference_masked : forall prog s s',
+      map mask (fst (run fields (NewPEP :: prog) s)) = map mask (fst (run fields (NewPEP :: prog) s')) /\
+      (forall k, In k model_keys ->
+                 glob (snd (run fields (NewPEP :: prog) s)) k = glob (snd (run fields (NewPEP :: prog) s')) k).
+  Proof.
+    intros prog s s'.
+    assert (Hr : agree K (reset_with fields (glob s)) (reset_with fields (glob s'))) by apply reset_forgets.
+    assert (HQC : K kPepC) by kin.
+    destruct (fresh_agree kPepC _ _ HQC Hr) as [A B].
+    cbn [run step].
+    destruct (fresh kPepC (reset_with fields (glob s))) as [i g1].
+    destruct (fresh kPepC (reset_with fields (glob s'))) as [i' g1']. cbn [fst snd] in A, B.
+    pose (t := {| glob := g1 ; null_dim := null_dim s |}). pose (t' := {| glob := g1' ; null_dim := null_dim s' |}).
+    destruct (run_agree_masked prog t t' B) as [C D]. fold t t'.
+    destruct (run fields prog t) as [xs s2]. destruct (run fields prog t') as [xs' s2'].
+    cbn [fst snd map mask] in *. split; [now rewrite A, C|]. intros k Hk. apply D, K_model, Hk.
+  Qed.
 End Frame.
 
 (** ------------------------------------------------------------------ the generated lists *)
@@ -259,8 +308,9 @@ Lemma gen_model_keys_exact :
   /\ covers (keys3 class_attrs) model_keys = true.
 Proof. repeat split; vm_compute; reflexivity. Qed.
 (** the only process-global DSL state outside the classes: the two null objects *)
-Lemma gen_residual : map (fun t => snd (fst t)) module_objects = ["null_expression"; "null_point"].
-Proof. reflexivity. Qed.
+Lemma gen_residual : map (fun t => snd (fst t)) module_objects = ["null_expression"; "null_point"]
+                     /\ module_object_writes = [].
+Proof. split; reflexivity. Qed.
 
 Lemma triple_eqb_eq : forall a b, triple_eqb a b = true -> a = b.
 Proof.
